@@ -27,14 +27,31 @@ static size_t pick_len(Rng &r, size_t cap_total) {
     return l;
 }
 
-static void gen(uint64_t seed, const std::string &prop, Plan &plan) {
-    Rng r(mix64(seed, 0xC0));
-    plan.family = "conv";
+struct GenP {
+    const char *family = "conv";
+    uint64_t salt = 0xC0;
+    double p_faults = 0.7;
+    int max_conn = 3;
+    int max_events = 12;
+    bool small = false;      // short messages only (fault-enumeration families keep the wire short)
+    bool noise = true;
+    double p_stream = 0.3;
+    bool badsends = false;   // C03: sends of size 0 / max+1 / 1 MiB as generated inputs
+};
+
+static size_t pick_len_small(Rng &r) {
+    static const size_t l[] = {1, 1, 2, 3, 4, 5, 17, 60, 300, 1500};
+    return l[r.below(10)];
+}
+
+static void gen_with(uint64_t seed, const std::string &prop, Plan &plan, const GenP &gp) {
+    Rng r(mix64(seed, gp.salt));
+    plan.family = gp.family;
     plan.prop = prop;
     plan.seed = seed;
-    bool faults = r.chance(0.7);
+    bool faults = r.chance(gp.p_faults);
     gen_common_knobs(r, plan, faults);
-    bool stream = prop == "C02" ? true : prop == "C01" ? false : r.chance(0.3);
+    bool stream = prop == "C02" ? true : prop == "C01" ? false : r.chance(gp.p_stream);
     std::string tp = stream ? STR_TPS[r.below(2)] : MSG_TPS[r.below(6)];
     plan.sp["tp"] = tp;
     plan.p["stream"] = stream;
@@ -43,7 +60,7 @@ static void gen(uint64_t seed, const std::string &prop, Plan &plan) {
     // tcp/btcp tolerate smaller (useful to force partial writes), but TLS can deadlock legitimately when
     // a post-handshake record (session ticket) does not fit while both ends write: stay in the envelope.
     if (tls_bearing(tp) && p["tcp_buf"] < 4096) p["tcp_buf"] = 4096 << r.below(5);
-    int nconn = r.chance(0.7) ? 1 : (int)r.range(2, 3);
+    int nconn = (gp.max_conn <= 1 || r.chance(0.7)) ? 1 : (int)r.range(2, gp.max_conn);
     int gid = 0;
     p["nconn"] = nconn;
     p["srv_nb"] = r.chance(0.7);
@@ -60,13 +77,13 @@ static void gen(uint64_t seed, const std::string &prop, Plan &plan) {
         p[strf("s%d_spec", c)] = r.chance(0.5);
         int ct = T_CLIENT0 + c, st = T_SCONN0 + c;
         plan.ops.push_back(Op{ct, "connect", {}, "", {}, -1});
-        int nev = (int)r.range(1, 12);
+        int nev = (int)r.range(1, gp.max_events);
         size_t left = vol / (size_t)nconn;
         int idx[2] = {0, 0};
         int dir = (int)r.below(2);
         for (int e = 0; e < nev && left > 0; e++) {
             if (r.chance(0.45)) dir = !dir;
-            size_t len = pick_len(r, left);
+            size_t len = gp.small ? std::min(pick_len_small(r), left) : pick_len(r, left);
             left -= len;
             int snd = dir == 0 ? ct : st, rcv = dir == 0 ? st : ct;
             if (stream) {
@@ -84,6 +101,11 @@ static void gen(uint64_t seed, const std::string &prop, Plan &plan) {
                 if (r.chance(0.05)) cap = (int64_t)len + 1;
                 plan.ops.push_back(Op{rcv, "recv", {cap}, "", {}, grp});
             }
+            if (gp.badsends && !stream && r.chance(0.35)) {
+                static const int64_t bad[] = {0, 65536, 65537, 1 << 20, 100000};
+                plan.ops.push_back(Op{r.chance(0.5) ? ct : st, "badsend", {bad[r.below(5)]}, "", {}});
+            }
+            if (!gp.noise) continue;
             // noise: calls that the contract allows at any time
             if (r.chance(0.25)) plan.ops.push_back(Op{r.chance(0.5) ? ct : st, "finish", {0}, "", {}});
             if (r.chance(0.15)) plan.ops.push_back(Op{r.chance(0.5) ? ct : st, "tryrecv", {65535}, "", {}});
@@ -101,6 +123,27 @@ static void gen(uint64_t seed, const std::string &prop, Plan &plan) {
     p["step_budget"] = 1500000;
 }
 
+static void gen(uint64_t seed, const std::string &prop, Plan &plan) { gen_with(seed, prop, plan, GenP()); }
+
+// Family "term" (C06, C03): one short conversation; the worker first executes it fault-free while
+// recording every fallible lower call, then executes one variant per failure point (fault enumeration).
+static void gen_term(uint64_t seed, const std::string &prop, Plan &plan) {
+    GenP gp;
+    gp.family = "term";
+    gp.salt = 0x7E;
+    gp.p_faults = 0.25;
+    gp.max_conn = 1;
+    gp.max_events = prop == "C03" ? 5 : 6;
+    gp.small = true;
+    gp.noise = false;
+    gp.p_stream = prop == "C03" ? 0.15 : 0.3;
+    gp.badsends = prop == "C03";
+    gen_with(seed, prop, plan, gp);
+    plan.p["counters"] = prop == "C03" ? 1 : plan.p["counters"];
+    plan.p["ctl"] = 0;
+    plan.p["variant_cap"] = 200;
+}
+
 // ------------------------------------------------------------------ execution
 struct ConvCtx {
     std::string tp, addr;
@@ -108,6 +151,7 @@ struct ConvCtx {
     bool server_ready = false, server_failed = false;
     int nconn = 0;
     uint64_t fresh_counter = 0;
+    bool client_gone = false;    // variant runs: the (only) client's connection attempt failed
 };
 static ConvCtx *CX = nullptr;
 
@@ -243,6 +287,27 @@ static bool do_finish(Script &sc, bool must) {
     }
 }
 
+// C06: once a terminal condition has been reported the socket must stay in it. Three or more rounds of
+// send / receive / finish in a seeded order; the automaton in xapi.cc judges every result.
+static void probe_terminal(Script &sc) {
+    XSock *x = sc.x;
+    if (!x->terminal() && !x->saw_epipe) return;
+    int rounds = 3 + (int)G->r_app.below(3);
+    uint8_t buf[64];
+    for (int i = 0; i < rounds && !G->stopping; i++) {
+        int order = (int)G->r_app.below(6);
+        static const int perm[6][3] = {{0, 1, 2}, {0, 2, 1}, {1, 0, 2}, {1, 2, 0}, {2, 0, 1}, {2, 1, 0}};
+        for (int k = 0; k < 3; k++) {
+            switch (perm[order][k]) {
+            case 0: x_send(x, "p", 1); break;
+            case 1: x_receive(x, buf, sizeof(buf)); break;
+            case 2: if (x->nonblocking) x_finish(x); break;
+            }
+        }
+        G->count("probe.terminal_probe_round");
+    }
+}
+
 static void run_script(Script &sc) {
     XSock *x = sc.x;
     int data_left = 0;
@@ -296,6 +361,20 @@ static void run_script(Script &sc) {
                 break;
             }
         } else if (op.kind == "close") { x_close(x); }
+        else if (op.kind == "abort") { x_close(x); break; }   // crash point: close at once, nothing finished
+        else if (op.kind == "badsend") {
+            // C03: sizes the transport must refuse without touching the connection (0: EINVAL, > max: EMSGSIZE)
+            size_t len = (size_t)op.arg(0);
+            std::string m(len, 'z');
+            int rc = x_send(x, m.data(), len);
+            int e = errno;
+            if (rc >= 0)
+                G->violation("C03.bad_size_accepted", "%s: xcm_send with %zu bytes on a messaging socket returned %d", x->label.c_str(), len, rc);
+            else if (e != (len == 0 ? EINVAL : EMSGSIZE) && (e == EAGAIN || e == EINVAL || e == EMSGSIZE))
+                G->violation("C03.bad_size_errno", "%s: xcm_send with %zu bytes failed with %s, expected %s", x->label.c_str(), len, strerror(e), len == 0 ? "EINVAL" : "EMSGSIZE");
+            else if (e != EINVAL && e != EMSGSIZE) sc.failed = true;   // the connection itself has ended
+            G->count("probe.badsend");
+        }
         disarm_faults();
         (void)ok;
     }
@@ -312,11 +391,13 @@ static void run_script(Script &sc) {
             break;
         }
     }
+    if (sc.failed && !x->closed && !G->stopping && G->plan.family == "term") probe_terminal(sc);
     sc.done = !G->stopping && !sc.failed;
     if (!x->closed) x_close(x);
 }
 
 static std::vector<std::unique_ptr<Script>> *scripts = nullptr;
+static bool judged_sock(const XSock *x) { return x && !x->ignore_delivery && !x->dying; }
 
 static Script *make_script(const Plan &plan, int task, XSock *x, bool spec, const std::string &who) {
     auto s = std::make_unique<Script>();
@@ -363,11 +444,22 @@ static void setup(const Plan &plan) {
                 if (!x_wait(srv)) break;
             }
             XSock *c = x_accept(srv, nullptr, strf("s?"));
-            if (!c) { if (errno == EAGAIN || errno == EINTR) continue; G->note("accept failed: %s", strerror(errno)); continue; }
+            if (!c) {
+                if (errno == EAGAIN || errno == EINTR) continue;
+                G->note("accept failed: %s", strerror(errno));
+                if (pl->P("variant")) accepted++;   // an injected fault may end the connection before it is accepted
+                continue;
+            }
             int ci = -1;
             if (c->peer) sscanf(c->peer->label.c_str(), "c%d", &ci);
+            if (ci < 0 && CX->nconn == 1) {
+                // the only client has gone already (crash-point variants): attribute by elimination
+                ci = 0;
+                for (auto &u : xsocks()) if (u->label == "c0" && !u->peer) x_pair(c, u.get());
+            }
             if (ci < 0) { G->violation("HARNESS.pairing", "accepted connection cannot be attributed to a client"); x_close(c); accepted++; continue; }
             c->label = strf("s%d", ci);
+            if (pl->P("cut_dir", -1) == 1) c->dying = true;
             accepted++;
             bool want_nb = pl->P(strf("s%d_nb", ci)) != 0;
             bool spec = pl->P(strf("s%d_spec", ci)) != 0;
@@ -387,13 +479,20 @@ static void setup(const Plan &plan) {
             block_until([] { return CX->server_ready || CX->server_failed; }, -1, "wait for server");
             if (CX->server_failed || G->stopping) return;
             bool has_connect = false;
-            for (auto &op : pl->ops) if (op.task == T_CLIENT0 + c && op.kind == "connect") has_connect = true;
+            for (size_t i = 0; i < pl->ops.size(); i++)
+                if (pl->ops[i].task == T_CLIENT0 + c && pl->ops[i].kind == "connect") { has_connect = true; arm_faults(pl->ops[i].faults, (int)i); }
             if (!has_connect) return;
             struct xcm_attr_map *cattrs = nullptr;
             if (CX->stream) { cattrs = xcm_attr_map_create(); xcm_attr_map_add_str(cattrs, "xcm.service", CX->fresh_counter % 2 ? "bytestream" : "any"); }
             XSock *x = x_connect(CX->addr, cattrs, nb, strf("c%d", c));
+            disarm_faults();
             if (cattrs) xcm_attr_map_destroy(cattrs);
-            if (!x->s) { G->violation("HARNESS.connect", "xcm_connect(%s) failed: %s", CX->addr.c_str(), strerror(errno)); return; }
+            if (!x->s) {
+                if (pl->P("variant")) { G->count("probe.connect_failed_in_variant"); CX->client_gone = true; return; }   // an injected fault may legitimately end the attempt
+                G->violation("HARNESS.connect", "xcm_connect(%s) failed: %s", CX->addr.c_str(), strerror(errno));
+                return;
+            }
+            if (pl->P("cut_dir", -1) == 0) x->dying = true;
             Script *sc = make_script(*pl, T_CLIENT0 + c, x, spec, x->label);
             run_script(*sc);
         }, 1, netns);
@@ -425,7 +524,7 @@ static void finalize(const Plan &plan, EndReason r) {
         for (auto &sc : *scripts) {
             XSock *x = sc->x;
 
-            if (sc->eof_errno && !x->ignore_delivery) {
+            if (sc->eof_errno && !x->ignore_delivery && !plan.P("variant") && x->peer && x->peer->closed_after_flush) {
                 // the peer closed gracefully after everything was delivered, yet the close is reported as an error
                 if (x->peer && x->peer->close_truncated && sc->eof_errno == EPROTO)
                     G->violation("C06.tls_close_notify_truncated", "%s: peer's xcm_close could not write its whole TLS close_notify (socket buffer full); the close is reported as EPROTO instead of 0", sc->who.c_str());
@@ -441,6 +540,204 @@ static void finalize(const Plan &plan, EndReason r) {
     (void)prop;
 }
 
-static struct Reg { Reg() { register_family(Family{"conv", gen, setup, finalize, nullptr}); } } reg;
+// ------------------------------------------------------------------ family "term": fault enumeration
+static Script *script_of_task(int task) {
+    std::string who = task >= T_SCONN0 ? strf("s%d", task - T_SCONN0) : strf("c%d", task - T_CLIENT0);
+    for (auto &sc : *scripts) if (sc->who == who) return sc.get();
+    return nullptr;
+}
+
+static void setup_term(const Plan &plan) {
+    setup(plan);
+    XO.check_refusal = plan.prop == "C03";
+    if (plan.P("variant")) {
+        // in a variant run the injected fault is the subject: what the delivery and liveness oracles see is this property's
+        if (plan.prop == "C03") {
+            G->alias["C01.phantom"] = "C03.duplicate_or_phantom";
+            G->alias["C01.content"] = "C03.delivery_content";
+            G->alias["C01.length"] = "C03.delivery_content";
+            G->alias["C02.stream_content"] = "C03.delivery_content";
+            G->alias["C02.refused_bytes_delivered"] = "C03.failed_send_delivered";
+            G->alias["C01.lost"] = "C03.accepted_not_delivered";
+            G->alias["C02.lost"] = "C03.accepted_not_delivered";
+            G->alias["C04.lost_wakeup"] = "C03.unusable_after_refusal";
+            G->alias["C04.no_progress"] = "C03.unusable_after_refusal";
+        } else {
+            G->alias["C01.phantom"] = "C06.partial_or_altered_message";
+            G->alias["C01.content"] = "C06.partial_or_altered_message";
+            G->alias["C01.length"] = "C06.partial_or_altered_message";
+            G->alias["C02.stream_content"] = "C06.partial_or_altered_message";
+            G->alias["C04.lost_wakeup"] = "C06.never_reported";
+            G->alias["C04.no_progress"] = "C06.never_reported";
+        }
+    }
+}
+
+static int64_t wire_total(XSock *x, bool out) {
+    for (auto &f : x->kfiles)
+        if (auto t = std::dynamic_pointer_cast<TcpSock>(f)) {
+            auto &pipe = out ? t->out : t->in;
+            if (pipe) return (int64_t)pipe->accepted;
+        }
+    return 0;
+}
+
+static void finalize_term(const Plan &plan, EndReason r) {
+    bool variant = plan.P("variant") != 0;
+    if (!variant) {
+        finalize(plan, r);
+        for (auto &x : xsocks())
+            if (x->label == "c0") { G->stat["wire.c2s"] = wire_total(x.get(), true); G->stat["wire.s2c"] = wire_total(x.get(), false); }
+        return;
+    }
+    if (r == EndReason::QUIESCENT) {
+        // Unfinished tasks at global quiescence. Excused: the side whose host "died" (its kernel no longer
+        // answers), and the acceptor when the only connection attempt was ended by the fault.
+        std::string stuck;
+        for (auto &t : G->tasks) {
+            if (t->st == Task::DONE) continue;
+            bool excused = false;
+            for (auto &x : xsocks()) if (x->label == t->name && x->dying) excused = true;
+            if ((plan.P("cut_dir", -1) == 0 && t->name == "c0") || (plan.P("cut_dir", -1) == 1 && t->name == "s0")) excused = true;
+            if (t->name == "acceptor") {
+                // the acceptor waits for a connection that the fault may have ended before it was established
+                bool clients_done = true;
+                for (auto &u : G->tasks) if (u->name.size() > 1 && u->name[0] == 'c' && u->st != Task::DONE) clients_done = false;
+                if (clients_done || CX->client_gone || plan.P("cut_dir", -1) >= 0) excused = true;
+            }
+            if (!excused) stuck += t->name + " ";
+        }
+        if (!stuck.empty())
+            G->violation("C04.lost_wakeup", "variant %s: global quiescence with unfinished tasks (a terminal condition or a wake-up never came): %s", plan.S("variant").c_str(), task_dump().c_str());
+    } else if (r == EndReason::BUDGET) {
+        G->violation("C04.no_progress", "variant %s: step budget exhausted (%llu steps): %s", plan.S("variant").c_str(), (unsigned long long)G->steps, task_dump().c_str());
+    }
+    // errno variants: the call that discovers the failure reports that errno
+    for (auto &op : plan.ops)
+        for (auto &f : op.faults) {
+            if (f.kind != "errno" || f.arg == EAGAIN || !G->stat.count("fault.applied_errno")) continue;
+            Script *sc = script_of_task(op.task);
+            if (!sc || !judged_sock(sc->x)) continue;
+            XSock *x = sc->x;
+            if (f.arg == EPIPE) continue;   // a write into a closed connection: reported as close (EPIPE on send, 0 on receive)
+            if (x->term_errno != 0 && x->term_errno != (int)f.arg)
+                G->violation("C06.wrong_errno", "%s: the lower %s failed with %s inside %s, but the socket reported %s", x->label.c_str(), f.call.c_str(), strerror((int)f.arg), op.kind.c_str(), strerror(x->term_errno));
+            else if (x->term_errno == 0 && (x->saw_eof || x->saw_epipe))
+                G->violation("C06.wrong_errno", "%s: the lower %s failed with %s inside %s, but the socket reported an orderly close (%s)", x->label.c_str(), f.call.c_str(), strerror((int)f.arg), op.kind.c_str(), x->saw_eof ? "receive returned 0" : "EPIPE");
+        }
+    // orderly FIN at a wire offset on the plain framing transports: exactly the complete frames before the cut, then 0
+    if (plan.P("cut_dir", -1) >= 0 && plan.P("cut_mode") == 1 && (CX->tp == "tcp") && r == EndReason::ALL_DONE) {
+        XSock *dy = nullptr, *vi = nullptr;
+        for (auto &x : xsocks()) { if (x->dying) dy = x.get(); }
+        if (dy) vi = dy->peer;
+        if (dy && vi && vi->saw_eof && !vi->saw_epipe && vi->term_errno == 0 && G->stat.count("fault.cut")) {
+            uint64_t off = 0, complete = 0;
+            for (size_t l : dy->sent_lens) { off += 4 + l; if ((int64_t)off <= plan.P("cut_at")) complete++; else break; }
+            if (vi->recv_ok != complete)
+                G->violation("C06.fin_prefix", "%s: peer closed in an orderly way after wire byte %lld; %llu complete message(s) had arrived, xcm_receive delivered %llu before returning 0", vi->label.c_str(), (long long)plan.P("cut_at"), (unsigned long long)complete, (unsigned long long)vi->recv_ok);
+        }
+    }
+    g_run_nontrivial = G->stat.count("fault.applied_errno") || G->stat.count("fault.cut") || G->stat.count("fault.errno.send") || G->stat.count("fault.short.send") ||
+                       G->stat.count("fault.eintr.poll") || plan.S("variant").compare(0, 5, "crash") == 0;
+}
+
+static Plan variant_of(const Plan &base, const std::string &label) {
+    Plan v = base;
+    v.sp["variant"] = label;
+    return v;
+}
+
+static void term_variants(const Plan &base, const Result &ref, std::vector<Plan> &out, size_t cap) {
+    const std::string tp = base.S("tp");
+    bool tcp_based = tp == "tcp" || tp == "tls" || tp == "btcp" || tp == "btls" || tp == "utls_tls";
+    std::vector<Plan> all;
+    if (ref.verdict != "ok" || ref.end_reason != "all_done") return;   // the reference execution itself is the report
+    if (base.prop == "C03") {
+        for (auto &c : ref.calls) {
+            if (c.op_index < 0 || c.op_index >= (int)base.ops.size()) continue;
+            if (c.call == "send") {
+                Plan v = variant_of(base, strf("eagain:op%d:send%d", c.op_index, c.nth_in_op));
+                v.ops[c.op_index].faults.push_back(Fault{"errno", "send", c.nth_in_op, EAGAIN, 0});
+                all.push_back(v);
+                if (c.res > 1 && tcp_based) {
+                    Plan w = variant_of(base, strf("short:op%d:send%d", c.op_index, c.nth_in_op));
+                    w.ops[c.op_index].faults.push_back(Fault{"short", "send", c.nth_in_op, 1 + (c.res - 1) / 2, 0});
+                    w.ops[c.op_index].faults.push_back(Fault{"errno", "send", c.nth_in_op + 1, EAGAIN, 0});
+                    all.push_back(w);
+                }
+            } else if (c.call == "poll") {
+                Plan v = variant_of(base, strf("eintr:op%d:poll%d", c.op_index, c.nth_in_op));
+                v.ops[c.op_index].faults.push_back(Fault{"eintr", "poll", c.nth_in_op, 0, 0});
+                all.push_back(v);
+            }
+        }
+    } else {
+        static const int errs[] = {ECONNRESET, ETIMEDOUT, EHOSTUNREACH, ENETUNREACH, ECONNREFUSED, EPIPE};
+        if (tcp_based)
+            for (auto &c : ref.calls) {
+                if (c.op_index < 0 || c.op_index >= (int)base.ops.size() || (c.call != "send" && c.call != "recv")) continue;
+                for (int e : errs) {
+                    if (e == EPIPE && c.call == "recv") continue;
+                    Plan v = variant_of(base, strf("errno:%s:op%d:%s%d", strerror(e), c.op_index, c.call.c_str(), c.nth_in_op));
+                    v.ops[c.op_index].faults.push_back(Fault{"errno", c.call, c.nth_in_op, e, 0});
+                    all.push_back(v);
+                }
+            }
+        if (tcp_based) {
+            std::set<int64_t> bounds;
+            int64_t tot[2] = {0, 0};
+            auto i0 = ref.stat.find("wire.c2s"), i1 = ref.stat.find("wire.s2c");
+            if (i0 != ref.stat.end()) tot[0] = i0->second;
+            if (i1 != ref.stat.end()) tot[1] = i1->second;
+            std::map<int, int64_t> cum;
+            for (auto &c : ref.calls) if (c.call == "send" && c.res > 0) { cum[c.fd] += c.res; bounds.insert(cum[c.fd]); }
+            for (int dir = 0; dir < 2; dir++) {
+                std::set<int64_t> offs;
+                if (tot[dir] <= 160) for (int64_t o = 0; o <= tot[dir]; o++) offs.insert(o);
+                else {
+                    for (int64_t b : bounds) for (int64_t d = -1; d <= 5; d += (d < 1 ? 1 : 4)) if (b + d >= 0 && b + d <= tot[dir]) offs.insert(b + d);
+                    for (int64_t o = 0; o <= 8 && o <= tot[dir]; o++) offs.insert(o);
+                }
+                for (int64_t o : offs)
+                    for (int mode = 1; mode <= 3; mode++) {
+                        Plan v = variant_of(base, strf("cut:dir%d:at%lld:mode%d", dir, (long long)o, mode));
+                        v.p["cut_dir"] = dir; v.p["cut_at"] = o; v.p["cut_mode"] = mode;
+                        all.push_back(v);
+                    }
+            }
+        }
+        // crash points: either side closes abruptly before its i-th operation
+        for (int task : {T_CLIENT0, T_SCONN0}) {
+            std::vector<size_t> idx;
+            for (size_t i = 0; i < base.ops.size(); i++) if (base.ops[i].task == task && base.ops[i].kind != "connect") idx.push_back(i);
+            for (size_t k = 0; k < idx.size(); k++) {
+                Plan v = variant_of(base, strf("crash:task%d:before_op%zu", task, idx[k]));
+                std::vector<Op> ops;
+                for (size_t i = 0; i < base.ops.size(); i++) {
+                    if (base.ops[i].task == task && i >= idx[k]) continue;
+                    ops.push_back(base.ops[i]);
+                }
+                ops.push_back(Op{task, "abort", {}, "", {}, -1});
+                v.ops = ops;
+                all.push_back(v);
+            }
+        }
+    }
+    if (all.size() > cap) {
+        // deterministic sample; the evidence counts such scenarios as not completely enumerated
+        Rng r(mix64(base.seed, 0x5A));
+        for (size_t i = 0; i < cap; i++) { size_t j = i + r.below(all.size() - i); std::swap(all[i], all[j]); }
+        all.resize(cap);
+        for (auto &v : all) v.p["enum_truncated"] = 1;
+    }
+    out = std::move(all);
+}
+
+static struct Reg {
+    Reg() {
+        register_family(Family{"conv", gen, setup, finalize, nullptr, nullptr});
+        register_family(Family{"term", gen_term, setup_term, finalize_term, nullptr, term_variants});
+    }
+} reg;
 
 }  // namespace xs
